@@ -185,9 +185,7 @@ Proof.
            (Ent 9 KSubroutine (s "Init") Public []).
     repeat split; try (vm_compute; tauto). }
   split.
-  { intros r1 r2 H1 H2 E. vm_compute in H1, H2.
-    repeat (destruct H1 as [<-|H1]; [repeat (destruct H2 as [<-|H2]; [first [reflexivity|discriminate E]|]); destruct H2|]).
-    destruct H1. }
+  { apply consistent_of_nodup. vm_compute. repeat constructor; simpl; intuition discriminate. }
   split; [|reflexivity].
   vm_compute. repeat constructor; intros H; simpl in H; intuition discriminate.
 Qed.
